@@ -47,7 +47,9 @@ META = {
     'budget': {'quick': 90, 'thorough': 900},
 }
 RULE = ('case = (configuration, single-path or multi-key mode, operation '
-        'list, flush/restart points); distinct by that tuple; non-trivial '
+        'list, flush/restart points); indices 0-31 are one two-key put '
+        'followed by a reload (smallest multi-key histories); distinct by '
+        'that tuple; non-trivial '
         'when at least 2 puts were applied, at least one clear or expire '
         'removed a setting, and a DB reload was compared while broadcasts '
         'were present')
